@@ -101,5 +101,8 @@ class BaseScheduler(BaseSeedable, ABC):
     def session(self) -> Generator[None, None, None]:
         """Start the session of the scheduler with a context manager."""
         self.start_session()
-        yield
-        self.end_session()
+        try:
+            yield
+        finally:
+            # also when a batch fails: a scheduler may hold resources (e.g. a running thread) until the session ends
+            self.end_session()
